@@ -3,9 +3,11 @@ package main
 import (
 	"fmt"
 	"os"
+	"path/filepath"
 	"sort"
 	"strconv"
 	"strings"
+	"sync"
 	"time"
 
 	"verif/harness/host"
@@ -54,6 +56,13 @@ func startEmu(c *host.Child, persist string) (*emu, error) {
 			} else if len(tail) > 300 {
 				tail = tail[len(tail)-300:]
 			}
+			// (startServer prints a failed bind to stdout before it exits)
+			if b, rerr := os.ReadFile(filepath.Join(c.Dir, "stdout.txt")); rerr == nil && len(b) > 0 {
+				if len(b) > 200 {
+					b = b[len(b)-200:]
+				}
+				tail = strings.TrimSpace(string(b)) + " " + tail
+			}
 			return nil, fmt.Errorf("%v: %s", err, strings.ReplaceAll(headLines(tail, 6), "\n", " | "))
 		}
 		return nil, err
@@ -67,9 +76,24 @@ func (e *emu) close() {
 	e.child.CloseEmu(e.name, 10*time.Second)
 }
 
+// noteInfra counts a failure of the test infrastructure that made a scenario end without a verdict (callers that
+// cannot connect simply return); the counts are printed and recorded as inconclusive when the run finishes, so a
+// run that silently skipped work cannot pass for one that observed it.
+var (
+	infraMu    sync.Mutex
+	infraNotes = map[string]int{}
+)
+
+func noteInfra(what string) {
+	infraMu.Lock()
+	infraNotes[what]++
+	infraMu.Unlock()
+}
+
 // canary does a SET/GET round trip on its own connection and reports whether
 // the emulator answered correctly within the watchdog.
 type canary struct {
+	mu   sync.Mutex // check and close may be called from different goroutines (a canary loop and its owner)
 	port int
 	c    *wire.Conn
 	n    int
@@ -78,6 +102,8 @@ type canary struct {
 func newCanary(port int) *canary { return &canary{port: port} }
 
 func (k *canary) check(watchdog time.Duration) (ok bool, why string) {
+	k.mu.Lock()
+	defer k.mu.Unlock()
 	for attempt := 0; attempt < 2; attempt++ {
 		if k.c == nil {
 			c, err := wire.Dial(k.port)
@@ -109,6 +135,8 @@ func (k *canary) check(watchdog time.Duration) (ok bool, why string) {
 }
 
 func (k *canary) close() {
+	k.mu.Lock()
+	defer k.mu.Unlock()
 	if k.c != nil {
 		k.c.Close()
 		k.c = nil
